@@ -93,3 +93,14 @@ Print Assumptions C01_every_event_checked.
 Print Assumptions C01_accepts_bytes.
 Print Assumptions C01_login_success_guarded_bytes.
 Print Assumptions C01_auth_call_guarded_bytes.
+
+(* ---- M3 (Conn/Sem3.v): the same for EVERY behaviour of the transport (free room following any schedule: writes accepted
+   in part, refused, never accepted again), every latency of localize(), every cancellation of a pending write or of a
+   pending missed-keep-alive verdict by the race.  Proofs in Conn/Sem3Proofs.v. ---- *)
+From Passage Require Import Lib.Bytes Codec.Desc Gen.PacketsGen Conn.Types Conn.Prog Conn.Sem1 Conn.Sem2 Conn.Sem3 Conn.Monitor Conn.Order Conn.Checks Conn.Switch Conn.Sem3Proofs.
+
+Theorem C01_backpressure : forall o cfg e encf loclat cap sch s,
+  ok (step_with (chk_c01 o cfg)) m_init (untime (trace_of (run3 o cfg e encf loclat cap sch s))).
+Proof. exact run3_c01_ok. Qed.
+
+Print Assumptions C01_backpressure.
